@@ -264,6 +264,18 @@ func runC14(c *Ctx) {
 	checkLazySet(c, p, fns, flows, muValues, setField, kvName)
 
 	// ---- R14.4: queues in goroutines --------------------------------------------------
+	checkQueueMutex(c, p, fns, flows)
+
+	// ---- R14.6: a known value is complete before it is published ----------------------
+	checkPublishAfterInit(c, p, fns, kvName, setField)
+
+	// ---- R14.5: every other shared write reachable from the v1 entry points -----------
+	checkV1SharedWrites(c, p)
+}
+
+// checkQueueMutex: R14.4. The operations on a priority queue that can run in spawned goroutines all hold one mutex that
+// lives at least as long as the queue.
+func checkQueueMutex(c *Ctx, p *core.Prog, fns []*ssa.Function, flows map[*ssa.Function]*eng.LockFlow) {
 	region := eng.ConcurrentRegion(fns)
 	c.R.Count("R14.4:functions that can run in spawned goroutines", len(region))
 	type qop struct {
@@ -329,11 +341,6 @@ func runC14(c *Ctx) {
 	}
 	c.R.RequireMin("R14.4", "queue operations in goroutines", len(qops), 2)
 
-	// ---- R14.6: a known value is complete before it is published ----------------------
-	checkPublishAfterInit(c, p, fns, kvName, setField)
-
-	// ---- R14.5: every other shared write reachable from the v1 entry points -----------
-	checkV1SharedWrites(c, p)
 }
 
 // queueOwner: the outermost function in which a local queue variable lives.
